@@ -848,3 +848,88 @@ def translate_like_to_regex():
         "def like_to_regex (like : List Char) : List A :=",
         "  like.map (fun %s => %s)" % (ch, branch(loop.body[0])),
         "", "end Mimic.Extracted.LikeCode"]) + "\n"
+
+
+# ----------------------------------------------------------------------------- Variables.get_schema / set / get of variables.py
+def translate_variables_store():
+    """variables.Variables.get_schema / set / get → Lean over the types of Mimic.Variables (the schema is an association
+    list of `Schema` records, `self.values` a `Store`, a value an `Arg`; `type_(value)` is `coerce`, the model of the five
+    type callables).  Error codes become the model's error classes."""
+    from mysql_mimic import variables as Vm
+    tree = ast.parse(inspect.getsource(Vm))
+    cls = [n for n in tree.body if isinstance(n, ast.ClassDef) and n.name == "Variables"][0]
+    fn = {f.name: f for f in cls.body if isinstance(f, ast.FunctionDef)}
+    ERR = {"UNKNOWN_SYSTEM_VARIABLE": ".unknown", "PARSE_ERROR": ".notDynamic", "WRONG_VALUE_FOR_VAR": ".badValue", "NOT_SUPPORTED_YET": ".notSupported"}
+
+    def stmts(f):
+        return [s for s in f.body if not (isinstance(s, ast.Expr) and isinstance(s.value, ast.Constant))]
+
+    def raise_err(s):
+        if not (isinstance(s, ast.Raise) and isinstance(s.exc, ast.Call) and ast.unparse(s.exc.func) == "MysqlError"):
+            raise Untranslatable("raise " + ast.unparse(s))
+        code = [k.value for k in s.exc.keywords if k.arg == "code"]
+        if not code or not (isinstance(code[0], ast.Attribute) and code[0].attr in ERR):
+            raise Untranslatable("error code of " + ast.unparse(s))
+        return ERR[code[0].attr]
+
+    # get_schema
+    b = stmts(fn["get_schema"])
+    if not (len(b) == 3 and ast.unparse(b[0]) == "schema = self.schema.get(name)" and isinstance(b[1], ast.If) and ast.unparse(b[1].test) == "not schema"
+            and len(b[1].body) == 1 and ast.unparse(b[2]) == "return schema"):
+        raise Untranslatable("get_schema has an unexpected body")
+    e_unknown = raise_err(b[1].body[0])
+    out = ["-- GENERATED by harness/extract.py (harness/pytrans.py) from /repo/mysql_mimic/variables.py — do not edit",
+           "import Mimic.Variables", "namespace Mimic.Extracted.VariablesCode", "open Mimic.Variables", "",
+           "def get_schema (schema : List Schema) (name : String) : Except Err Schema :=",
+           "  match findSchema schema name with",
+           "  | none => .error %s" % e_unknown,
+           "  | some s => .ok s", ""]
+    # set
+    b = stmts(fn["set"])
+    params = [a.arg for a in fn["set"].args.args]
+    if params != ["self", "name", "value", "force"]:
+        raise Untranslatable("set: parameters %r" % params)
+    if not (len(b) == 4 and ast.unparse(b[0]) == "name = name.lower()" and ast.unparse(b[1]) == "type_, default, dynamic = self.get_schema(name)"):
+        raise Untranslatable("set: prologue")
+    g = b[2]
+    if not (isinstance(g, ast.If) and not g.orelse and len(g.body) == 1):
+        raise Untranslatable("set: guard")
+    gt = ast.unparse(g.test)
+    if gt != "not dynamic and (not force)":
+        raise Untranslatable("set: guard condition " + gt)
+    e_guard = raise_err(g.body[0])
+    a = b[3]
+    if not (isinstance(a, ast.If) and ast.unparse(a.test) == "value is DEFAULT or value is None" and len(a.body) == 1 and len(a.orelse) == 1
+            and ast.unparse(a.body[0]) == "self.values[name] = default" and ast.unparse(a.orelse[0]) == "self.values[name] = type_(value)"):
+        raise Untranslatable("set: assignment")
+    out += ["def set (schema : List Schema) (cs : List String) (values : Store) (name : String) (value : Arg) (force : Bool) : Except Err Store :=",
+            "  let name := lower name",
+            "  match get_schema schema name with",
+            "  | .error e => .error e",
+            "  | .ok sc =>",
+            "    if (!sc.dynamic && !force) then .error %s else" % e_guard,
+            "    match value with",
+            "    | .dflt => .ok (put values name sc.dflt)",
+            "    | .val .none => .ok (put values name sc.dflt)",
+            "    | .val v => (match coerce cs sc.ty v with | .ok w => .ok (put values name w) | .error e => .error e)",
+            "    | .complex => .error .notSupported   -- not a Python value: `expression_to_value` raised before `set` was called", ""]
+    # get
+    b = stmts(fn["get"])
+    if not (len(b) == 4 and ast.unparse(b[0]) == "name = name.lower()" and isinstance(b[1], ast.If) and ast.unparse(b[1].test) == "name in self.values"
+            and ast.unparse(b[1].body[0]) == "return self.values[name]" and ast.unparse(b[2]) == "_, default, _ = self.get_schema(name)"
+            and ast.unparse(b[3]) == "return default"):
+        raise Untranslatable("get has an unexpected body")
+    out += ["def get (schema : List Schema) (values : Store) (name : String) : Except Err V :=",
+            "  let name := lower name",
+            "  match values.lookup name with",
+            "  | some v => .ok v",
+            "  | none => match get_schema schema name with",
+            "    | .error e => .error e",
+            "    | .ok sc => .ok sc.dflt", ""]
+    b = stmts(fn["list"])
+    if not (len(b) == 1 and ast.unparse(b[0]) == "return [(name, self.get(name)) for name in sorted(self.schema)]"):
+        raise Untranslatable("list has an unexpected body")
+    out += ["def list (schema : List Schema) (values : Store) (sortedNames : List String) : List (String × V) :=",
+            "  sortedNames.filterMap (fun name => match get schema values name with | .ok v => some (name, v) | .error _ => none)", "",
+            "end Mimic.Extracted.VariablesCode"]
+    return "\n".join(out) + "\n"
